@@ -129,6 +129,7 @@ class Dumper:
             ek = "(opt N)" if e.defaultValue is _NOT_MATCHED else "(opt %s)" % _tok_sx(e.defaultValue)
         elif t is pp.NotAny: ek = "not"
         elif t is pp.FollowedBy: ek = "fb"
+        elif t.__name__ == "FollowedBy>" and issubclass(t, pp.FollowedBy): ek = "lookahead"   # infix_notation's _FB
         elif t is pp.Located: ek = "located"
         elif t is pp.AtStringStart: ek = "atstringstart"
         elif t is pp.AtLineStart: ek = "atlinestart"
